@@ -50,6 +50,7 @@ CHECKS["C18"] = mir_check("Ok-continuation lemma: applied-patches is written onl
     "BufWriters are flushed explicitly before Ok; the workers' errors are checked before Ok; the output functions never use Write::write (short writes). That every individual write error is propagated needs syscall fault injection: outside this technique (scenario replays induce EFBIG / ENOTDIR / dangling links).", "DESIGN.md §2 C18")
 CHECKS["C13"] = dict(level="model_checking", engine="kani+mirvc",
     text="Guards decided over MIR: a reject file is created only for a file patch of the rejected patch whose report failed; the reject pass returns Ok only when the stack top no longer belongs to the rejected patch (no arm leaves the loop early); "
+         "every hunk of a file patch is tried (no hunk is written off after an earlier failure); the reject file's name is made from the file's own path with the directory kept; "
          "the failing patch's other file patches are still attempted by every worker and later ones are not; rollback and rejects precede save. Writer (Kani): write_rej_to's output for one failed one-line hunk with symbolic bytes is exactly the file header, "
          "the hunk header and the hunk's lines as records; nothing is written when every hunk applied (1-3 hunks).",
     technique="bounded model checking (Kani/CBMC) of the reject writer plus SMT-decided guard VCs over the drivers' MIR", ref="DESIGN.md §2 C13", note=KANI_NOTE + " " + MIR_NOTE)
